@@ -1460,6 +1460,10 @@ def variant(r, base_recipe, k):
         "attr-value-space": None,
         "string-unicode": None,
         "attr-scalar": None,
+        "renest": None,
+        "attr-key-rename": None,
+        "attr-key-replace": None,
+        "attr-edge-value": None,
     }
     return k, ops[k]
 
@@ -1580,6 +1584,44 @@ def apply_variant(r, root, k, op):
         s_ = r.choice(strs)
         s_.replace_with(type(s_)(raw(s_) + r.choice(["\U0001f600", "\ud800", "\x00", "e\u0301", "\u00e9", "\u212b", "\u00c5"])))
         return True
+    if k == "renest":
+        # the same elements in the same document order, nested differently below the top level: an element moves to the end of
+        # its previous sibling tag, or the last child of a tag moves out to just after it (a close tag shifted)
+        down = [t for t in nodes[1:] if t.parent is not root and is_tag(t.previous_sibling) and not t.previous_sibling.is_empty_element]
+        up = [t for t in nodes[1:] if is_tag(t) and t.parent is not None and t.parent is not root and t.contents]
+        if not down and not up:
+            down = [t for t in nodes[1:] if is_tag(t.previous_sibling)]
+            if not down:
+                return False
+        if down and (not up or r.random() < 0.6):
+            t = r.choice(down)
+            t.previous_sibling.append(t.extract())
+        else:
+            t = r.choice(up)
+            t.insert_after(t.contents[-1].extract())
+        return True
+    if k in ("attr-key-rename", "attr-key-replace", "attr-edge-value"):
+        # same NUMBER of attributes, exactly one key missing / one value exchanged between the "empty-looking" legal values
+        edge = lambda v: v is None or v is False or v == 0 or v == "" or v == []
+        ts = [(t, kk) for t in tags for kk in t.attrs]
+        if not ts:
+            return False
+        pref = [(t, kk) for t, kk in ts if edge(t.attrs[kk])]
+        t, kk = r.choice(pref) if pref and r.random() < 0.8 else r.choice(ts)
+        items = list(t.attrs.items())
+        fresh = next(n_ for n_ in ("readonly", "title", "zz9", "zz8") if n_ not in t.attrs)
+        if k == "attr-key-rename":
+            new = [(fresh if a is kk else a, b) for a, b in items]
+        elif k == "attr-key-replace":
+            new = [((fresh, r.choice(["x", "", None, ["x"]])) if a is kk else (a, b)) for a, b in items]
+        else:
+            cur = t.attrs[kk]
+            new = [((a, r.choice([v for v in (None, "", False, 0, [], "None", "False") if type(v) is not type(cur) or v != cur])) if a is kk
+                    else (a, b)) for a, b in items]
+        t.attrs.clear()
+        for a, b in new:
+            dict.__setitem__(t.attrs, a, b)
+        return True
     if k == "attr-scalar":
         ts = [t for t in tags if type(t.attrs) is e["el"].AttributeDict]
         if not ts:
@@ -1590,7 +1632,7 @@ def apply_variant(r, root, k, op):
     raise ValueError(k)
 
 
-VARIANTS = ["namespace", "settings", "tag-class", "name-case", "attr-key-case", "attr-value-space", "string-unicode", "attr-scalar", "rename", "attr-value", "attr-del", "list-append", "child-removed", "child-added", "tag-added", "string-class",
+VARIANTS = ["renest", "attr-key-rename", "attr-key-replace", "attr-edge-value", "namespace", "settings", "tag-class", "name-case", "attr-key-case", "attr-value-space", "string-unicode", "attr-scalar", "rename", "attr-value", "attr-del", "list-append", "child-removed", "child-added", "tag-added", "string-class",
             "string-text", "attr-order", "move", "prefix", "hidden", "wrap", "list-class", "str-vs-list"]
 
 
@@ -1605,6 +1647,11 @@ def build_pool(recipe, pool_desc, seed_tuple):
     if not cands:
         return pool, keep
     base = cands[pool_desc["base"] % len(cands)]
+    # legal edge values on the base itself, set through the public API: the value-less attribute (None), False, 0, "", []
+    for kk, vd in pool_desc.get("base_attrs", []):
+        if not (kk in base.attrs):
+            base[kk] = make_value(vd)
+    w2_attrs = pool_desc.get("base_attrs", [])
     observe(base_world)     # everything has been hashed / rendered / compared before any variant is derived
     pool.append(("base", base))
     pool.append(("copy", copy.copy(base)))
@@ -1612,7 +1659,11 @@ def build_pool(recipe, pool_desc, seed_tuple):
     w2 = build(recipe)
     keep.append(w2)
     c2 = [n for n in all_nodes(w2) if is_tag(n) and not is_soup(n)]
-    pool.append(("other-document", c2[pool_desc["base"] % len(c2)]))
+    twin = c2[pool_desc["base"] % len(c2)]
+    for kk, vd in w2_attrs:
+        if not (kk in twin.attrs):
+            twin[kk] = make_value(vd)
+    pool.append(("other-document", twin))
     # ... and nested at another position of a third document
     host = e["BeautifulSoup"]("<section><div><p>host</p></div></section>", "html.parser")
     keep.append(host)
@@ -1789,7 +1840,11 @@ def stream_pools(ctx, batch, n_pools):
     for pi in range(n_pools):
         r = ctx.rng("pool", pi)
         recipe = gen_recipe(r)
-        desc = {"base": r.randrange(64), "variants": [list(variant(r, recipe, k)) for k in r.sample(VARIANTS, ctx.n(7, 10))]}
+        desc = {"base": r.randrange(64), "variants": [list(variant(r, recipe, k)) for k in r.sample(VARIANTS, ctx.n(8, 11))]}
+        if r.random() < 0.6:
+            desc["base_attrs"] = [[kk, vd] for kk, vd in r.sample([["disabled", ["n"]], ["checked", ["b", False]], ["n0", ["i", 0]],
+                                                                    ["empty", ["s", ""]], ["el", ["l", "list", []]], ["hidden", ["n"]],
+                                                                    ["t", ["b", True]]], r.choice((1, 2, 3)))]
         check_pool(ctx, batch, recipe, desc, (ctx.seed, "C12", "pool", pi), "equality", pi)
 
 
